@@ -28,6 +28,9 @@ func symbolNeedsQuoting(sym string) bool {
 	switch sym {
 	case "", "null", "true", "false", "nan":
 		return true
+	case ionVersionMarker:
+		// Unquoted, the text reader takes it for a version marker, not a symbol.
+		return true
 	}
 
 	if !isIdentifierStart(int(sym[0])) {
